@@ -4,6 +4,7 @@ import (
 	"encoding/json"
 	"errors"
 	"net/http"
+	"sync"
 
 	"github.com/buildbuildio/pebbles/planner"
 	"github.com/buildbuildio/pebbles/queryer"
@@ -31,7 +32,12 @@ var vHTTPCalls map[string]int
 // verifDo is what (*http.Client).Do becomes
 var vMultipartHookFn func(url string, req *http.Request) (*http.Response, bool)
 
+// the fake services are one linearisable server model: concurrent calls are served one at a time
+var vDoMu sync.Mutex
+
 func verifDo(req *http.Request) (*http.Response, error) {
+	vDoMu.Lock()
+	defer vDoMu.Unlock()
 	url := req.Host
 	if vMultipartHookFn != nil {
 		if resp, handled := vMultipartHookFn(url, req); handled {
